@@ -16,6 +16,27 @@ pub struct MRule
     pub split: bool,
     /// index of the rules file this rule lives in
     pub file: usize,
+    /// render the command as /bin/sh text (real-file-system runs) instead of the harness language
+    pub shell: bool,
+}
+
+pub fn shell_instr(i: &Instr) -> String
+{
+    match i
+    {
+        Instr::EmitCopy { t, src } => format!("cat {} > {}", src, t),
+        Instr::EmitConst { t, tag } => format!("printf '%s' '{}' > {}", tag, t),
+        Instr::EmitMix { t, tag, srcs } =>
+        {
+            let hs: Vec<String> = srcs.iter().map(|s| format!("$(sha256sum < {} | cut -c1-6)", s)).collect();
+            format!("printf '%s' \"{}[{}]\" > {}", tag, hs.join(","), t)
+        }
+        Instr::ChmodX { t } => format!("chmod +x {}", t),
+        Instr::Fail { .. } => "false".to_string(),
+        Instr::FailIf { flag } => format!("test ! -e {}", flag),
+        Instr::FailOn { src, content } => format!("test \"$(cat {})\" != '{}'", src, content),
+        Instr::Nop { .. } => "true".to_string(),
+    }
 }
 
 impl MRule
@@ -24,6 +45,18 @@ impl MRule
     pub fn command_lines(&self) -> Vec<String>
     {
         let mut out = vec![];
+        if self.shell
+        {
+            for (i, chain) in self.script.iter().enumerate()
+            {
+                if i > 0
+                {
+                    out.push(";".to_string());
+                }
+                out.push(chain.iter().map(shell_instr).collect::<Vec<_>>().join(" && "));
+            }
+            return out;
+        }
         for (i, chain) in self.script.iter().enumerate()
         {
             if i > 0
